@@ -208,6 +208,24 @@ func (c *Core) onEnter(s *Sim, e *simrt.Event) {
 	}
 }
 
+// onRecheck compares what a handler reads from its request after it was
+// stalled with what the client sent: the decoded message must be the
+// handler's own, not state shared with requests decoded later.
+func (c *Core) onRecheck(s *Sim, e *simrt.Event) {
+	q := c.reqs[e.Msg]
+	ent, _ := e.P.(*Entered)
+	if q == nil || ent == nil || q.Corrupt || q.Negative || q.entered != 1 {
+		return
+	}
+	s.Probe("request-re-read-after-stall")
+	for _, d := range Diff(q.Rec, ent.Act, gldap.ConvertString) {
+		if d.Ctrl {
+			s.Violate("C14", "request", d.Field+" changed-while-handler-ran", fmt.Sprintf("m=%d %s, re-read after the handler was stalled: %s", e.Msg, q.Rec.Op, d.Detail))
+		}
+		s.Violate("C01", "fields", d.Field+" changed-while-handler-ran", fmt.Sprintf("m=%d %s, re-read after the handler was stalled: %s", e.Msg, q.Rec.Op, d.Detail))
+	}
+}
+
 // checkConcurrent is the C06 checkpoint: first quiescence, every byte
 // delivered, no handler released.
 func (c *Core) checkConcurrent(s *Sim) {
@@ -661,6 +679,26 @@ func (c *Core) finishClient(s *Sim, cl *Client) {
 			s.Probe("C07-connection-after-fault-accepted")
 		}
 	}
+	// a conforming client that connected while the server was up must be
+	// accepted and served, whatever other clients are doing
+	if cl.dialed && !cl.Offending && !cl.disturbed && c.stopCalls == 0 && !c.runRet && cl.ended == "" && cfg.ReadTimeout == 0 && cfg.WriteTimeout == 0 {
+		stuck := ""
+		switch {
+		case cl.refused && c.readyTrue > 0 && int(c.readyTrue) <= cl.dialStep:
+			s.Violate("C17", "connectable", "connection-refused-after-ready", fmt.Sprintf("%s was refused at step %d although Ready() had been true since step %d", cl.name(), cl.dialStep, c.readyTrue))
+		case cl.refused:
+		case !cl.accepted:
+			stuck = "connection-never-accepted"
+		case cl.Flavour == 1 && !cl.hsDone && cl.hsErr == "":
+			stuck = "tls-handshake-never-completed"
+		}
+		if stuck != "" {
+			c.bystanderViolation(s, stuck, fmt.Sprintf("%s connected at step %d and at final quiescence: %s", cl.name(), cl.dialStep, stuck))
+			if cfg.ReadyPoll && c.readyTrue > 0 {
+				s.Violate("C17", "served", stuck, fmt.Sprintf("%s connected after Ready()==true and before Stop: %s", cl.name(), stuck))
+			}
+		}
+	}
 	if cl.ep == nil || !cl.accepted {
 		return
 	}
@@ -720,6 +758,9 @@ func (c *Core) finishClient(s *Sim, cl *Client) {
 			if bystander {
 				c.bystanderViolation(s, "request-dropped", fmt.Sprintf("m=%d on bystander %s never served", q.Rec.MsgID, cl.name()))
 			}
+			if cfg.ReadyPoll && c.readyTrue > 0 {
+				s.Violate("C17", "served", "request-never-served", fmt.Sprintf("m=%d on %s, which connected after Ready()==true, was never served", q.Rec.MsgID, cl.name()))
+			}
 			continue
 		}
 		if op == "unbind" {
@@ -755,7 +796,11 @@ func (c *Core) finishClient(s *Sim, cl *Client) {
 		var exp []*Expect
 		var okw []bool
 		for _, w := range q.writes {
-			exp = append(exp, q.Script.Resps[w.k].Model(q.Rec.MsgID))
+			if w.again {
+				exp = append(exp, q.Script.Resps[w.k].ModelAgain(q.Rec.MsgID))
+			} else {
+				exp = append(exp, q.Script.Resps[w.k].Model(q.Rec.MsgID))
+			}
 			okw = append(okw, w.err == "")
 			if w.err == "" {
 				nOK++
@@ -809,6 +854,7 @@ func (c *Core) finishClient(s *Sim, cl *Client) {
 			}
 			if okw[wi] && drained && q.exited >= q.entered {
 				s.Violate("C05", "multiset", "frame-lost", fmt.Sprintf("m=%d: write %d of %d returned nil, client received %d frames for it", q.Rec.MsgID, wi, len(q.writes), len(q.got)))
+				s.Violate("C04", "frame", "never-arrived ctor="+q.Script.Resps[q.writes[wi].k].Ctor, fmt.Sprintf("m=%d: write %d of %d returned nil but its frame never reached the client (%d frames received)", q.Rec.MsgID, wi, len(q.writes), len(q.got)))
 				if bystander {
 					c.bystanderViolation(s, "response-lost", fmt.Sprintf("m=%d on bystander %s", q.Rec.MsgID, cl.name()))
 				}
@@ -818,7 +864,7 @@ func (c *Core) finishClient(s *Sim, cl *Client) {
 		if gi < len(q.got) {
 			s.Violate("C05", "multiset", "frame-duplicated-or-unknown", fmt.Sprintf("m=%d: %d writes attempted, %d frames received", q.Rec.MsgID, len(q.writes), len(q.got)))
 		}
-		if bystander && drained && q.exited >= q.entered && len(q.writes)+q.ctorPanic < len(q.Script.Resps) && !q.Script.Panic {
+		if bystander && drained && q.exited >= q.entered && len(q.writes)+2*q.ctorPanic < len(q.Script.Resps) && !q.Script.Panic {
 			c.bystanderViolation(s, "handler-did-not-finish", fmt.Sprintf("m=%d on bystander %s", q.Rec.MsgID, cl.name()))
 		}
 	}
